@@ -257,7 +257,9 @@ func (b *builder) wrap(L *layer, X *sx) *sx {
 		}
 		return call("unwind-protect", X, b.C(), b.C())
 	case "with-mutex-lock":
-		return seq(atom("with-mutex-lock"), atom(fmt.Sprintf("m%d", L.Idx)))
+		// (vmx n) yields mutex n; in the real run it first makes sure the mutex
+		// is free, so that a mutex left locked gives a verdict, not a deadlock
+		return seq(atom("with-mutex-lock"), call("vmx", num(L.Idx)))
 	case "ignore-errors":
 		return seq(atom("ignore-errors"))
 	case "recover":
